@@ -717,7 +717,7 @@ impl FromIterator<Paragraph> for Deb822 {
                 builder.token(NEWLINE.into(), "\n");
                 builder.finish_node();
             }
-            inject(&mut builder, paragraph.0);
+            inject_terminated(&mut builder, paragraph.0);
         }
         builder.finish_node();
         Self(SyntaxNode::new_root_mut(builder.finish()))
